@@ -35,6 +35,8 @@ type sched struct {
 	mus      map[*value]*muState
 	onces    map[*value]bool
 	schedChoice bool // select / wakeup order are choice points
+	files       map[*value]*memFile
+	fileOrder   []*value
 }
 
 type wgState struct{ n int }
